@@ -11,7 +11,7 @@ import (
 )
 
 func gen(g *hx.Gen) {
-	n := g.Count(150, 3000)
+	n := g.Count(150, 1500)
 	r := g.R
 	for i := 0; i < n; i++ {
 		pw := r.Bytes(r.Range(1, 100))
